@@ -620,7 +620,25 @@ def near_f(a, b):
     """for histories with a repeated-readings operand: the mean / standard error of the readings are
     the harness's own (fsum) and agree with a correct library to rounding, not bit for bit"""
     return same_f(a, b) or (isinstance(a, float) and isinstance(b, float) and
-                            abs(a - b) <= 1e-12 * max(abs(a), abs(b)))
+                            abs(a - b) <= 1e-12 * max(abs(a), abs(b)) + 1e-13 * REP_SCALE[0])
+
+
+REP_SCALE = [0.0]     # largest |reading| of the repeated-readings operands of the case being judged: a
+# mean of readings that cancel (0.0 by numpy's pairwise sum, 2e-17 by fsum) agrees to rounding OF THE READINGS
+
+
+def rep_scale(c):
+    m = 0.0
+
+    def items(x):
+        return [x[1]] if x[0] == "one" else x[1] if x[0] == "many" and len(x) < 3 else []
+    for e in c["edits"]:
+        its = [e[2]] if e[0] == "set" else items(e[1]) if e[0] == "append" else items(e[2]) if \
+            e[0] == "insert" else []
+        for i in its:
+            if i[0] == "rep":
+                m = max([m] + [abs(x) for x in rep_readings(i)])
+    return m
 
 
 def fault_accepted(o):
@@ -634,6 +652,8 @@ def compare(c, o, m):
     if fault_accepted(o):
         return []
     same_f = near_f if has_rep(c) else globals()["same_f"]
+    REP_SCALE[0] = rep_scale(c)
+    rs = REP_SCALE[0]
     if "fail" in m:
         return [{"signature": "c17:model-error", "kind": "disagreement", "what": "model driver: " +
                  m["fail"], "input": inp, "case": c}]
@@ -705,14 +725,16 @@ def compare(c, o, m):
                 return fail("aggregate:" + agg + ":exception", agg + "() raised " + ai[agg])
             for k, field in ((0, "value"), (1, "uncertainty")):
                 v, b = fb(am[agg][k])
-                if not close(ai[agg][k], v, b, slack=256.0):
+                if not close(ai[agg][k], v, b, slack=256.0) and not (
+                        rs and abs(ai[agg][k] - v) <= 1e-12 * rs * max(ai["len"], 1)):
                     return fail("aggregate:{}:{}".format(agg, field), "{}() {} differs from its "
                                 "definition".format(agg, field), impl=ai[agg][k], expected=v, bound=b)
             if ai[agg][2] != am["unit"]:
                 return fail("aggregate:{}:unit".format(agg), agg + "() unit differs", impl=ai[agg][2],
                             expected=am["unit"])
         v, b = fb(am["std"])
-        if isinstance(ai["std"], str) or not close(ai["std"], v, b, slack=256.0):
+        if isinstance(ai["std"], str) or (not close(ai["std"], v, b, slack=256.0) and not (
+                rs and abs(ai["std"] - v) <= 1e-12 * rs * max(ai["len"], 1))):
             return fail("aggregate:std", "std() differs from the sample standard deviation",
                         impl=ai["std"], expected=v, bound=b)
     return []
@@ -725,6 +747,8 @@ def list_reference(c, o):
     cur = [(unbits(p[0]), unbits(p[1])) for p in c["init"]]
     inp = describe(c)
     same_f = near_f if has_rep(c) else globals()["same_f"]
+    REP_SCALE[0] = rep_scale(c)
+    rs = REP_SCALE[0]
 
     def pairs_of(x):
         def one(it):
@@ -798,7 +822,7 @@ def list_reference(c, o):
         vals, errs = [p[0] for p in new], [p[1] for p in new]
         n = len(vals)
         s_exp = (math.fsum(vals), math.sqrt(math.fsum(x * x for x in errs)))
-        scale = sum(abs(x) for x in vals) + 1e-300
+        scale = sum(abs(x) for x in vals) + 1e-300 + rs * len(vals)
         if not isinstance(a["sum"], str) and (abs(a["sum"][0] - s_exp[0]) > 1e-12 * scale or
                                               abs(a["sum"][1] - s_exp[1]) > 1e-12 * (s_exp[1] + 1e-300)):
             return [{"signature": "c17:list:sum", "what": "sum() is not sum(x) +/- sqrt(sum(s^2))",
